@@ -101,10 +101,20 @@ def lex_cmp(a, b):
            ite(lt(d1, d2), -1, ite(gt(d1, d2), 1, 0))))))
 
 
-def diff_date(io, unit):
-    """DifferenceISODate for every pair of representable dates; unit = largestUnit (7 day, 8 week, 9 month, 10 year)"""
+def diff_date(io, unit, max_dy=None):
+    """DifferenceISODate for every pair of representable dates; unit = largestUnit (7 day, 8 week, 9 month, 10 year).
+    With max_dy the second date's year is the first's plus a symbolic offset in -max_dy..=max_dy (the search loops
+    only ever look at years adjacent to the end year, so nearby pairs exercise every branch; far pairs: thorough)"""
     y1, m1, d1 = any_date(io, "a")
-    y2, m2, d2 = any_date(io, "b")
+    if max_dy is None:
+        y2, m2, d2 = any_date(io, "b")
+    else:
+        dy = io.int("dy", "i32", -max_dy, max_dy)
+        y2 = symex.Int(add(y1.t, dy.t), "i32")
+        m2 = io.int("bm", "u8", 1, 12)
+        d2 = io.int("bd", "u8", 1, 31)
+        io.assume(le(d2.t, R.dim(y2.t, m2.t)))
+        io.assume(and_(le(R.YEAR_MIN + 1, y2.t), le(y2.t, R.YEAR_MAX - 1)))
     u = symex.Enum(unit, {unit: []}, "Unit")
     r = io.call(("IsoDate", None, "diff_iso_date"),
                 [io.ref(symex.Agg([y1, m1, d1])), io.ref(symex.Agg([y2, m2, d2])), u],
@@ -161,4 +171,7 @@ def jobs(tier, seed):
     # encoding: they are attempted in the thorough tier only, and reported inconclusive there if they time out
     for u in ((7, 8) if tier == "quick" else (7, 8, 9, 10)):
         out.append(("diff_date[largest=%d]" % u, diff_date, {"unit": u}, {"unroll": 14, "timeout": 900, "max_paths": 20000}))
+    if tier != "quick":
+        for u in (9, 10):
+            out.append(("diff_date[largest=%d,|dy|<=2]" % u, diff_date, {"unit": u, "max_dy": 2}, {"unroll": 14, "timeout": 900, "max_paths": 20000}))
     return out
